@@ -1,5 +1,5 @@
 (* Model/Harness.v — boolean comparison helpers used only by generated correspondence files. *)
-From SA Require Export Model.Scores.
+From SA Require Export Model.Scores Model.Bsearch.
 Open Scope Q_scope.
 
 Definition cmz_eqb (a b : cmz) : bool :=
